@@ -396,6 +396,13 @@ func (in *Interp) describeWrap(v Value) string {
 		if x.Kind == "netconn" {
 			return "raw(" + in.connName(x) + ")"
 		}
+		if x.Kind == "multireader" {
+			var ps []string
+			for _, p := range x.items {
+				ps = append(ps, in.describeWrap(p))
+			}
+			return "multi(" + strings.Join(ps, ",") + ")"
+		}
 		return x.Kind
 	case *Value:
 		if x == nil {
@@ -407,6 +414,8 @@ func (in *Interp) describeWrap(v Value) string {
 				return "tls(" + in.describeWrap(o.F["raw"]) + ")"
 			case "bufreader":
 				return "reader(" + in.describeWrap(o.F["src"]) + ")"
+			case "bytesreader":
+				return "bytes"
 			case "bufwriter":
 				return "writer(" + in.describeWrap(o.F["dst"]) + ")"
 			}
